@@ -776,6 +776,8 @@ class SymDomain(BaseDomain):
         return super().to_scalar(v, what)
 
     def make_complex(self, re, im):
+        if isinstance(re, (SC, complex)) and is_number(im) and im == 0:
+            return re
         if all(is_number(x) and not isinstance(x, Poly) for x in (re, im)):
             return complex(re, im)
         return SC(re, im)
@@ -1041,7 +1043,11 @@ class SymDomain(BaseDomain):
                     if isinstance(x, (SQ, SC)):
                         raise ModelError("cannot store a quaternion/complex value into a real array")
             try:
-                base[idx] = vv
+                cur = base[idx]
+                if not isinstance(cur, np.ndarray) and isinstance(vv, np.ndarray) and vv.size == 1:
+                    base[idx] = vv.reshape(-1)[0]      # numpy converts a size-1 array stored into a single cell
+                else:
+                    base[idx] = vv
             except ValueError as e:
                 raise ModelError(str(e))
             return
